@@ -46,7 +46,11 @@ Foreign == /\ l <= NEvents /\ Ev(l).kind = "foreign" /\ Ev(l).injected = 0
 ForeignFault == /\ l <= NEvents /\ Ev(l).kind = "foreign" /\ Ev(l).injected = 1
                 /\ LET t == <<Ev(l).task[1], Ev(l).task[2]>> IN Reading(t) /\ TaskStep(t) /\ faults' = faults + 1
                 /\ l' = l + 1
-TNext == Silent \/ Protocol \/ Foreign \/ ForeignFault \/ (Rerun /\ UNCHANGED l)
+(* .. or the reader absorbs the error itself (pyarrow / dask probe paths inside try blocks): nothing happens *)
+ForeignAbsorbed == /\ l <= NEvents /\ Ev(l).kind = "foreign" /\ Ev(l).injected = 1
+                   /\ faults' = faults + 1 /\ l' = l + 1
+                   /\ UNCHANGED <<fs, pc, att, wstart, data, result, assign, status, gen, reran, writes, phase>>
+TNext == Silent \/ Protocol \/ Foreign \/ ForeignFault \/ ForeignAbsorbed \/ (Rerun /\ UNCHANGED l)
 TSpec == TInit /\ [][TNext]_tvars
 
 TreeMatches == \A p \in AllPaths :
